@@ -1,8 +1,8 @@
 -------------------------------- MODULE C13 --------------------------------
 (* C13: protocol state saved between rounds resumes to the identical        *)
 (* outcome.  One long run: distributed key generation -> a signing session  *)
-(* -> a distributed refresh -> a trusted-dealer refresh -> a second signing *)
-(* session.  At the chosen crash points the acting participant serialises   *)
+(* -> a distributed refresh -> a trusted-dealer refresh -> a repair of the  *)
+(* last member's share -> a second signing session.  At the chosen crash points the acting participant serialises   *)
 (* its local secret state (binary or JSON), drops it and continues from the *)
 (* decoded copy.  The specification's expectation of every later output is  *)
 (* the same with and without the crash (Reload leaves the environment       *)
@@ -23,7 +23,8 @@ N == Shape[1]
 T == Shape[2]
 IdSeq == Sorted(Ids)
 R2N(e, i) == "r2e" \o ToString(e) \o "from" \o ToString(i)
-Boundaries == {"dkg1", "dkg2", "dkg3", "commit", "rdkg1", "rdkg2", "rdkg3", "dealer_share", "dealer_kp", "commit2"}
+Boundaries == {"dkg1", "dkg2", "dkg3", "commit", "rdkg1", "rdkg2", "rdkg3", "dealer_share", "dealer_kp",
+               "repair_delta", "repair_sigma", "repair_kp", "commit2"}
 
 Init == FrostInit /\ pc = <<"start", 0>> /\ sc = [crash |-> {}]
 Go(next) == pc' = IF last'.res.ok THEN next ELSE <<"done", 0>>
@@ -51,6 +52,9 @@ Phase(ph, act, saved, after) ==
      /\ UNCHANGED sc
 
 Others == Ids \ {I}
+HelpersC == SubSeq(IdSeq, 1, T)
+XR == IdSeq[N]
+DNc == [i \in 1..64 |-> "dc" \o ToString(i)]
 S2 == {IdSeq[1], IdSeq[2]}           \* the signers of both sessions (T = 2) or all
 
 Next ==
@@ -82,7 +86,27 @@ Next ==
   \/ /\ pc[1] = "dealer" /\ ActRefreshShares("zs", <<"pkp2", 0>>, <<"pkp1", IdSeq[1]>>, IdSeq, DCoeffs)
      /\ Go(<<"dealer_share", 1>>) /\ UNCHANGED sc
   \/ Phase("dealer_share", ActReload(<<"zs", I>>, sc.form), << >>, <<"dealer_kp", 1>>)    \* the share in transit
-  \/ Phase("dealer_kp", ActRefreshShare(<<"kp2", I>>, <<"zs", I>>, <<"kp1", I>>), <<<<"kp2", I>>>>, <<"commit2", 1>>)
+  \/ Phase("dealer_kp", ActRefreshShare(<<"kp2", I>>, <<"zs", I>>, <<"kp1", I>>), <<<<"kp2", I>>>>,
+           IF N > T THEN <<"rp1", 1, 0>> ELSE <<"commit2", 1>>)
+  \* ---- the last member's share is repaired by the first T members; repair values are saved in transit
+  \/ /\ pc[1] = "rp1" /\ UNCHANGED sc
+     /\ ActRepair1(DNc[HelpersC[pc[2]]], HelpersC, <<"kp2", HelpersC[pc[2]]>>, [k \in 1..(T - 1) |-> 1], XR)
+     /\ Go(IF pc[2] = T THEN (IF "repair_delta" \in sc.crash THEN <<"rpd", 1, 1>> ELSE <<"rp2", 1, 0>>) ELSE <<"rp1", pc[2] + 1, 0>>)
+  \/ /\ pc[1] = "rpd" /\ UNCHANGED sc           \* every delta from helper pc[2] to helper pc[3]
+     /\ ActReload(<<DNc[HelpersC[pc[2]]], HelpersC[pc[3]]>>, sc.form)
+     /\ Go(IF pc[3] < T THEN <<"rpd", pc[2], pc[3] + 1>> ELSE IF pc[2] < T THEN <<"rpd", pc[2] + 1, 1>> ELSE <<"rp2", 1, 0>>)
+  \/ /\ pc[1] = "rp2" /\ UNCHANGED sc
+     /\ ActRepair2(<<"sigmaC", HelpersC[pc[2]]>>, [k \in 1..T |-> <<DNc[HelpersC[k]], HelpersC[pc[2]]>>])
+     /\ Go(IF pc[2] = T THEN (IF "repair_sigma" \in sc.crash THEN <<"rps", 1, 0>> ELSE <<"rp3", 0, 0>>) ELSE <<"rp2", pc[2] + 1, 0>>)
+  \/ /\ pc[1] = "rps" /\ UNCHANGED sc
+     /\ ActReload(<<"sigmaC", HelpersC[pc[2]]>>, sc.form)
+     /\ Go(IF pc[2] = T THEN <<"rp3", 0, 0>> ELSE <<"rps", pc[2] + 1, 0>>)
+  \/ /\ pc[1] = "rp3" /\ UNCHANGED sc
+     /\ ActRepair3(<<"kp2", XR>>, [k \in 1..T |-> <<"sigmaC", HelpersC[k]>>], XR, <<"pkp2", 0>>)
+     /\ Go(IF "repair_kp" \in sc.crash THEN <<"rpk", 0, 0>> ELSE <<"commit2", 1>>)
+  \/ /\ pc[1] = "rpk" /\ UNCHANGED sc
+     /\ ActReload(<<"kp2", XR>>, sc.form)
+     /\ Go(<<"commit2", 1>>)
   \* ---- second signing session with the newest shares
   \/ Phase("commit2", ActCommit(<<"nonB", I>>, <<"commB", I>>, <<"kp2", I>>, pc[2] + 20, pc[2] + 30),
            <<<<"nonB", I>>>>, <<"package2", 1>>)
